@@ -78,6 +78,49 @@ def _k8():
     return cfg
 
 
+def _k9():
+    """Early renewals: a lease renewed before it ran out, on a server whose
+    reboot date lies between now + lease and expiry + lease, with a
+    longer-lived server next to it."""
+    day = 24 * 3600
+    cfg = cellcfg.k5()
+    cfg['monitors'] = [cellmon.mon_c07]
+    cfg['idgroups'] = {}
+    cfg['allow_nocycle'] = False
+    cfg['servers'] = {
+        's0': {'parent': 'rack:0', 'age': 19 * day + 12 * 3600,
+               'variants': [{'cap': [10, 10, 10]}]},
+        's1': {'parent': 'rack:1', 'age': 0,
+               'variants': [{'cap': [10, 10, 10]}]},
+    }
+    cfg['templates'] = {
+        'l1': {'prio': 50, 'demand': [3, 3, 3], 'aff': 'a', 'lease': day},
+        'l2': {'prio': 50, 'demand': [6, 6, 6], 'aff': 'b',
+               'lease': day // 2},
+    }
+    cfg['max_apps'] = 3
+    cfg['events'] = cellcfg.ev(
+        ('add', 'l1'), ('add', 'l2'), ('rm', 0),
+        ('renew', 0), ('renew', 1), ('renew', 2),
+        ('tick', day // 4), ('tick', day // 2), ('tick', day), ('noop',),
+    )
+    return cfg
+
+
+def _k10(limits):
+    """A running holder of an exactly used-up rack/pod/cell limit is evicted
+    in vain (the evictor fits nowhere) and has to come back in place."""
+    cfg = cellcfg.k3(limits)
+    cfg['monitors'] = [cellmon.mon_c07]
+    cfg['allow_nocycle'] = False
+    cfg['templates']['xx'] = {'prio': 60, 'demand': [11, 11, 11], 'aff': 'x'}
+    cfg['events'] = cellcfg.ev(
+        ('add', 'la'), ('add', 'xx'), ('add', 'mid'), ('add', 'fill'),
+        ('rm', 0), ('rm', 1), ('prio', 0, 100), ('noop',),
+    )
+    return cfg
+
+
 def _k7():
     """Two allocations in one partition: an instance inside its reservation is
     ahead in the queue although its priority is lowest."""
@@ -117,9 +160,14 @@ def _k3():
 def configs(ctx):
     if ctx.quick:
         return [('K1', _k1(), 4, 1), ('K3', _k3(), 4, 0), ('K6', _k6(), 5, 0),
-                ('K7', _k7(), 5, 0), ('K8', _k8(), 5, 0)]
+                ('K7', _k7(), 5, 0), ('K8', _k8(), 5, 0), ('K9', _k9(), 5, 0),
+                ('K10-rack1', _k10({'rack': 1}), 4, 0),
+                ('K10-cell1', _k10({'cell': 1}), 4, 0)]
     return [('K1', _k1(), 6, 1), ('K3', _k3(), 7, 0), ('K6', _k6(), 8, 0),
-            ('K7', _k7(), 7, 0), ('K8', _k8(), 8, 0)]
+            ('K7', _k7(), 7, 0), ('K8', _k8(), 8, 0), ('K9', _k9(), 8, 0),
+            ('K10-rack1', _k10({'rack': 1}), 6, 0),
+            ('K10-pod1', _k10({'pod': 1}), 6, 0),
+            ('K10-cell1', _k10({'cell': 1}), 6, 0)]
 
 
 RULE = ('BFS over histories producing capacity pressure; per cycle the queue '
